@@ -348,9 +348,9 @@ func runC09(c *Ctx) {
 	for i := 0; i < nx; i++ {
 		runXreqScenario(c, 40)
 	}
-	// ... and its receive side, shared with XSURVEYOR: in order, at most once, split at byte four
+	// ... and its receive side, shared with XSURVEYOR (in order, at most once, split at byte four), and XSUB's (whole, drop when full)
 	for i := 0; i < nx; i++ {
-		runRawRecvScenario(c, i%2 == 1, 45)
+		runRawRecvScenario(c, i, 45)
 	}
 	// TTL option range on all six sockets
 	for _, s := range hopSites {
